@@ -34,7 +34,7 @@ func (c c05Case) String() string {
 
 func sameStat(a, b *types.Stat) bool {
 	return a.Path == b.Path && a.Mode == b.Mode && a.Uid == b.Uid && a.Gid == b.Gid && a.Size == b.Size && a.ModTime == b.ModTime &&
-		a.Linkname == b.Linkname && a.Devmajor == b.Devmajor && a.Devminor == b.Devminor && len(a.Xattrs) == len(b.Xattrs)
+		a.Linkname == b.Linkname && a.Devmajor == b.Devmajor && a.Devminor == b.Devminor && xEq(a.Xattrs, b.Xattrs)
 }
 
 // nodeChanged: did the entry at this path change identity or bytes between the
@@ -488,6 +488,12 @@ func c05Cases(tier string) []c05Case {
 			out = append(out, c05Case{Sync: &c})
 			cm := SyncCase{Src: fsmodel.Tree{s}, Dst: fsmodel.Tree{d}, Mem: s.Kind == fsmodel.Char, Merge: true}
 			out = append(out, c05Case{Sync: &cm})
+			if len(s.Xattrs) > 0 && strings.HasPrefix(firstKey(s.Xattrs), "user.") {
+				// a receiver-side Filter that edits the xattr map in place: what is reported is the entry as sent
+				cx := SyncCase{Src: fsmodel.Tree{s}, Dst: fsmodel.Tree{d}, FilterXattr: true}
+				cy := SyncCase{Src: fsmodel.Tree{s}, FilterXattr: true, Mem: true}
+				out = append(out, c05Case{Sync: &cx}, c05Case{Sync: &cy})
+			}
 		}
 	}
 	return out
